@@ -57,7 +57,42 @@ impl HistCfg {
             "builds": self.builds.iter().map(|b| json!({"n_trees":b.n_trees,"split_after":b.split_after,"memory":b.memory,"seed":b.seed})).collect::<Vec<_>>(),
             "ops_per_round": self.ops_per_round,
             "allow_clear": self.allow_clear,
+            "del_absent": self.del_absent,
             "label": self.label,
+            "menu_bits": self.menu,
+            "builds_full": self.builds.iter().map(|b| Action::Build { index: self.index, opts: b.clone() }.to_json()).collect::<Vec<_>>(),
+            "obs": {"structure": self.obs.structure, "exact_search": self.obs.exact_search, "lattice": self.obs.lattice,
+                    "routing": self.obs.routing, "options": self.obs.options, "upstream_validity": self.obs.upstream_validity},
+        })
+    }
+
+    pub fn from_json(v: &Value) -> Option<HistCfg> {
+        let u32s = |x: &Value| -> Vec<u32> {
+            x.as_array().map(|a| a.iter().map(|y| y.as_u64().unwrap_or(0) as u32).collect()).unwrap_or_default()
+        };
+        let index = v["index"].as_u64()? as u16;
+        Some(HistCfg {
+            metric: Metric::from_short(v["metric"].as_str()?)?,
+            dim: v["dim"].as_u64()? as usize,
+            index,
+            ids: u32s(&v["ids"]),
+            menu: v["menu_bits"].as_array()?.iter().map(|m| m.as_array().map(|a| a.iter().map(&u32s).collect()).unwrap_or_default()).collect(),
+            builds: v["builds_full"].as_array()?.iter().filter_map(|b| match Action::from_json(b) {
+                Some(Action::Build { opts, .. }) => Some(opts),
+                _ => None,
+            }).collect(),
+            ops_per_round: v["ops_per_round"].as_array()?.iter().map(|x| x.as_u64().unwrap_or(0) as usize).collect(),
+            allow_clear: v["allow_clear"].as_bool().unwrap_or(true),
+            del_absent: v["del_absent"].as_bool().unwrap_or(true),
+            obs: Observers {
+                structure: v["obs"]["structure"].as_bool().unwrap_or(false),
+                exact_search: v["obs"]["exact_search"].as_bool().unwrap_or(false),
+                lattice: v["obs"]["lattice"].as_bool().unwrap_or(false),
+                routing: v["obs"]["routing"].as_bool().unwrap_or(false),
+                options: v["obs"]["options"].as_bool().unwrap_or(false),
+                upstream_validity: v["obs"]["upstream_validity"].as_bool().unwrap_or(false),
+            },
+            label: v["label"].as_str().unwrap_or("").to_string(),
         })
     }
 }
